@@ -52,6 +52,14 @@ PROPS = {
                 slice="Blocks.v trees under a clamping option set vs NumPy step and CasADi functions",
                 trusted=["FunctionalExtensionality.functional_extensionality_dep (the only axiom; theorems hold for every numeric structure)",
                          "hand-written element-layer model Blocks.v (tied by the dynamics correspondence)"]),
+    "C12": dict(prop_file="props/C12.v", generators=["T-tables"], module="harness.p_dyn",
+                slice="Lifecycle.v vs the implementation on lifecycle histories; Blocks.v trees vs NumPy/CasADi on re-used objects",
+                trusted=["no axioms", "Lifecycle.v as model of the variable slots (tied by lifecycle histories)",
+                         "translator effects.py: which expressions allocate a new value is a classification rule (trusted, PARTIAL)"]),
+    "C19": dict(prop_file="props/C19.v", generators=[], module="harness.p_life",
+                slice="Lifecycle.v vs init_vars / step / construction / to_function histories on SX and MX",
+                trusted=["no axioms", "Lifecycle.v as model of base.py slots, Network.step, to_function's readiness scan and "
+                         "casadi.Function's free-symbol rule (tied by lifecycle histories)"]),
     "C13": dict(prop_file="props/C13.v", generators=["T-tables"], module="harness.p_sel",
                 slice="EngineSel.v vs use/get_current_engine on selection histories; recording engines for every (selected, explicit) pair",
                 trusted=["no axioms", "EngineSel.v as model of engines/core.py::use and the module-level selection",
